@@ -426,7 +426,13 @@ class SecopClient(ProxyClient):
                 self.active_requests[key] = entry
                 line = encode_msg_frame(*request)
                 self.log.debug('TX: %r', line)
-                self.io.send(line)
+                try:
+                    self.io.send(line)
+                except Exception as e:
+                    # the request can not be transmitted: treat this as a lost connection,
+                    # the waiting callers must not wait for their time-out
+                    self.log.debug('TX failed: %r', e)
+                    break
         self._txthread = None
         self.disconnect(False)
 
